@@ -9,4 +9,6 @@ theorem gen_guessDistance (ttl : Nat) : Gen.guessDistance ttl = guessDistance tt
   | (unfold Gen.guessDistance guessDistance firstHit
      simp only [List.find?]
      grind)
+  | (unfold Gen.guessDistance guessDistance
+     grind)
 end P0f
